@@ -476,6 +476,16 @@ Proof. exact CubeClasses.cubeW_corners_distinct. Qed.
 Print Assumptions cubeW_corners_distinct.
 Close Scope R_scope.
 
+(* ---------- the count hypotheses are needed (refuted without them) ---------- *)
+(* Cylinder.ToMesh does not validate Sides: it accepts 2 and returns an open surface — "admissible" has to mean sides >= 3 *)
+Theorem cyl_closed_below_3_refuted : exists n, 1 <= n /\ ~ closed_idx (cyl_cls n) (cyl_idx n).
+Proof. exact GenProofs.cyl_closed_below_3_refuted. Qed.
+Print Assumptions cyl_closed_below_3_refuted.
+(* two columns (rejected by UVSphere / UVSphereUnwelded / Hemisphere.UV) would not be closed *)
+Theorem sphere_closed_below_3_refuted : exists r c, 2 <= r /\ 1 <= c /\ ~ closed_idx sphere_cls (sphere_idx r c).
+Proof. exact GenProofs.sphere_closed_below_3_refuted. Qed.
+Print Assumptions sphere_closed_below_3_refuted.
+
 (* ---------- non-vacuity ---------- *)
 (* the smallest sphere: a triangular bipyramid *)
 Example sphere_2_3 : tris_of (sphere_idx 2 3) = [(0, 2, 1); (4, 1, 2); (0, 3, 2); (4, 2, 3); (0, 1, 3); (4, 3, 1)].
